@@ -73,9 +73,9 @@ class Tamper(Job):
     shadows = ["isinstance in _rendezvous/_mailbox/_order/_key/_receive/_boss/util (symbolic labels count as str, symbolic bodies as bytes)",
                "_rendezvous.hexstr_to_bytes (hands over the symbolic body)", "ideal PAKE / ideal AEAD"]
 
-    def __init__(self, cfg, plo, phi, ninj, kind):
-        self.cfg, self.plo, self.phi, self.ninj, self.kind = cfg, plo, phi, ninj, kind
-        self.name = "tamper_%s_%s_p%d-%d_n%d" % (cfg, kind, plo, phi, ninj)
+    def __init__(self, cfg, plo, phi, ninj, kind, reconnect=False):
+        self.cfg, self.plo, self.phi, self.ninj, self.kind, self.reconnect = cfg, plo, phi, ninj, kind, reconnect
+        self.name = "tamper_%s_%s_p%d-%d_n%d%s" % (cfg, kind, plo, phi, ninj, "_reconnect" if reconnect else "")
         self.bounds = dict(config=cfg, canonical_prefix_lengths="%d..%d" % (plo, phi - 1), injections=ninj, body_kind=kind,
                            side_label="own / peer / third side (symbolic)", phase_label="symbolic over %r" % PHASES,
                            body="any stored mailbox message (honest peer ciphertext, own ciphertext = reflection, PAKE bodies), garbage, fabricated PAKE; "
@@ -206,6 +206,28 @@ class Tamper(Job):
             c.boss._O._R = SimpleRec(recr, c.boss._R)
         try:
             assert replay_actions(sim, canon[:p])
+            if self.reconnect:
+                # the victim loses its connection and re-opens: the server replays the whole mailbox, then the adversary adds its own delivery
+                X = "AB"[victim]
+                if ("drop", X) not in sim.enabled():
+                    if symbolic:
+                        raise core._Abort()
+                    return None
+                sim.do(("drop", X))
+                if ("open", X) in sim.enabled():
+                    sim.do(("open", X))
+                c0 = sim.cl[victim]
+                # the server answers the re-open but WITHHOLDS its replay of the stored messages (it may deliver what it likes, when it likes):
+                # whatever reaches the client next is the adversary's choice below
+                for _ in range(6):
+                    if c0.conn is None:
+                        break
+                    sim.world.server.process_all(c0.conn)
+                    keep = [m for m in c0.conn.down if m.get("type") != "message"]
+                    c0.conn.down.clear()
+                    c0.conn.down.extend(keep)
+                    while c0.conn is not None and c0.conn.down:
+                        sim.do(("rx", X))
             done = 0
             for j in range(self.ninj):
                 na0 = sum(self._nacc.values())
@@ -358,12 +380,16 @@ def jobs(tier):
         n = len(canonical(cfg, ALL_CONFIGS, False))
         step = 3 if thorough else 6
         for lo in range(0, n + 1, step):
-            J.append(Tamper(cfg, lo, min(lo + step, n + 1), 1, "relabel"))
+            plain = Tamper(cfg, lo, min(lo + step, n + 1), 1, "relabel")
+            J.append(plain)
+            if cfg == "set-set":
+                J.append(Tamper(cfg, lo, min(lo + step, n + 1), 1, "relabel", reconnect=True))
             if lo <= 18 < lo + step and cfg in CONFIGS:
                 # this prefix range of the honest run contains checkpoints where a stored authentic message is still undelivered: delivering it
                 # by injection must be accepted and reach the application (otherwise the exploration never exercises the accepting path)
-                J[-1].must_reach = ("nt:injection-accepted", "nt:injection-delivered")
-            if cfg not in RELABEL_ONLY:
+                plain.must_reach = ("nt:injection-accepted", "nt:injection-delivered")
+            if cfg not in RELABEL_ONLY and (thorough or cfg == "set-set"):
+                # (the byte-flip family does not depend on the configuration: the quick tier runs it on one)
                 J.append(Tamper(cfg, lo, min(lo + step, n + 1), 1, "flip"))
         if thorough:
             for lo in range(0, n + 1):
